@@ -253,16 +253,23 @@ func init() {
 		Run: func(e *Engine, r *RuleRun) {
 			if fn := r.Need("keeper.Keeper.AddAssetsToRewardPool"); fn != nil {
 				fk, fa := FuncKey(fn), e.FA(fn)
-				send := r.One(fn, "forward to rewards pool", "types.BankKeeper.SendCoinsFromAccountToModule")
+				sends := CallsTo(fn, "types.BankKeeper.SendCoinsFromAccountToModule")
 				sv := r.One(fn, "persist indices", "keeper.Keeper.SetValidator")
-				if send != nil && sv != nil {
-					r.Check(moduleName(argT(fa, send, 2)) == "alliance_rewards", fk, "recipient is the rewards pool", "alliance_rewards", "coins are forwarded to "+argT(fa, send, 2).String(), r.P(send))
-					r.Check(argT(fa, send, 3).Op == "param" && argT(fa, send, 3).Name == "coins", fk, "coins forwarded == coins indexed", "the coins parameter is sent unchanged", "the coins forwarded ("+argT(fa, send, 3).String()+") are not the coins parameter the indices were computed from", r.P(send))
-					r.Check(argT(fa, send, 1).Op == "param", fk, "sender is the from parameter", "from", "sender is "+argT(fa, send, 1).String(), r.P(send))
-					if trail := fa.MustFollow(sv, []ssa.Instruction{send}); trail != nil {
+				if len(sends) == 0 {
+					r.Bad(fk, "forward to rewards pool", "AddAssetsToRewardPool no longer forwards the coins to the rewards pool", nil, e.Pos(fn.Pos()))
+				}
+				if len(sends) > 0 && sv != nil {
+					// every forward (the indexed one and the "nobody to index to" one) moves exactly the coins parameter
+					// from the from parameter into the rewards pool
+					for _, send := range sends {
+						r.Check(moduleName(argT(fa, send, 2)) == "alliance_rewards", fk, "recipient is the rewards pool", "alliance_rewards", "coins are forwarded to "+argT(fa, send, 2).String(), r.P(send))
+						r.Check(argT(fa, send, 3).Op == "param" && argT(fa, send, 3).Name == "coins", fk, "coins forwarded == coins indexed", "the coins parameter is sent unchanged", "the coins forwarded ("+argT(fa, send, 3).String()+") are not the coins parameter the indices were computed from", r.P(send))
+						r.Check(argT(fa, send, 1).Op == "param", fk, "sender is the from parameter", "from", "sender is "+argT(fa, send, 1).String(), r.P(send))
+					}
+					if trail := fa.MustFollow(sv, callsAsInstrs(sends)); trail != nil {
 						r.Bad(fk, "indices persisted => coins forwarded", "a success path persists increased reward indices without moving the coins into the rewards pool (entitlements exceed the pool)", trail, r.P(sv))
 					} else {
-						r.OK(fk, "indices persisted => coins forwarded", "every success path after SetValidator passes the transfer", r.P(send))
+						r.OK(fk, "indices persisted => coins forwarded", "every success path after SetValidator passes the transfer", r.P(sends[0]))
 					}
 					// increments derive from the coins parameter
 					n := 0
